@@ -590,3 +590,17 @@ func init() {
 			}}
 	})
 }
+
+func init() {
+	// the library's own InmemStore (behind the hooks) instead of the harness store
+	inmem := func(base string) func() *Scenario {
+		return func() *Scenario {
+			sc := scenarioByName(base)
+			sc.Store = StoreInmem
+			return sc
+		}
+	}
+	for _, b := range []string{"write3", "crash3", "snap3", "stale-suffix", "majority-restart", "fig8"} {
+		regScenario(b+"-inmem", inmem(b))
+	}
+}
